@@ -137,7 +137,10 @@ func runPconn(t *testing.T, c pconnIn) (in caseOut, out *caseOut, leak string) {
 		synctest.Wait()
 
 		// replies, as long as the mux still has the connection
-		if len(c.Reply) > 0 && !sv.closedByServer() {
+		mu.Lock()
+		attached := len(gots) > 0 && gots[0].err == nil // the first frame was accepted: the mux knows this connection
+		mu.Unlock()
+		if len(c.Reply) > 0 && attached && !sv.closedByServer() {
 			o := caseOut{ID: c.ID, Kind: "pconnw", Tag: c.Tag, Pk: c.Reply, Cap: c.Rcap, Wreal: true, Wmax: 65535, Wb: c.Wb, Raw: []int{}}
 			var rpay [][]byte
 			for i, n := range c.Reply {
